@@ -52,12 +52,12 @@ CHECKS["C14"] = dict(
     gen=dict(
         quick=[dict(mode="sim", spec="LSCoreGen.tla", cfg="LSCoreGenSim.cfg", depth=8, num=40, max=300, name="walks",
                     env={"VERIF_LSMODE": "c14"}),
-               dict(mode="sim", spec="LSCoreGen.tla", cfg="LSCoreGenSim.cfg", depth=7, num=60, max=400, name="one-context walks", salt=5,
+               dict(mode="edges", spec="LSCoreGen.tla", cfg="LSCoreGenFocus.cfg", depth=6, max=700, name="one-context edges",
                     env={"VERIF_LSMODE": "c14f"})],
         thorough=[dict(mode="sim", spec="LSCoreGen.tla", cfg="LSCoreGenSim.cfg", depth=10, num=300, max=3000, name="walks",
                        env={"VERIF_LSMODE": "c14"}),
-                  dict(mode="sim", spec="LSCoreGen.tla", cfg="LSCoreGenSim.cfg", depth=9, num=400, max=4000, name="one-context walks", salt=5,
-                       env={"VERIF_LSMODE": "c14f"})]),
+                  dict(mode="edges", spec="LSCoreGen.tla", cfg="LSCoreGenFocus.cfg", depth=7, max=8000, name="one-context edges",
+                       env={"VERIF_LSMODE": "c14f"}, timeout=1800)]),
     corrupt=_cor_c14, selftest_scenarios=100000,
     nontrivial=lambda s: sum(1 for o in s["ops"] if o["op"] in ("put", "set", "gc")) >= 2,
     rule="TLC-generated histories of puts (all modes/contexts, batches), set pin/unpin/remove/sync and collection runs, executed on a store whose "
